@@ -57,16 +57,33 @@ impl<'a> PrettyPrinter<'a> {
         ctx: Context,
         destructuring_item: DestructuringItem<'a>,
     ) -> ArenaDoc<'a> {
+        // Typst parses an expression pattern atomically: no line break may be put before
+        // its dots (`(a.b.c,) = x`, `(k: a.b.c) = x`), also not behind a spread or inside
+        // pattern parentheses (`(..a.b.c,) = x`, `((a.b.c), d) = x`).
+        fn is_expr_pattern(pattern: Pattern) -> bool {
+            match pattern {
+                Pattern::Normal(_) => true,
+                Pattern::Parenthesized(p) => is_dotted_pattern(p.pattern()),
+                _ => false,
+            }
+        }
+        // Parentheses around a plain name keep their usual layout.
+        fn is_dotted_pattern(pattern: Pattern) -> bool {
+            match pattern {
+                Pattern::Normal(Expr::Ident(_)) => false,
+                Pattern::Normal(_) => true,
+                Pattern::Parenthesized(p) => is_dotted_pattern(p.pattern()),
+                _ => false,
+            }
+        }
         match destructuring_item {
-            DestructuringItem::Spread(s) => self.convert_spread(ctx, s),
-            // Typst parses an expression pattern atomically: no line break may be put before
-            // its dots (`(a.b.c,) = x`, `(k: a.b.c) = x`).
-            DestructuringItem::Named(n) if matches!(n.pattern(), Pattern::Normal(_)) => {
+            DestructuringItem::Spread(s) => self.convert_spread(ctx.suppress_breaks(), s),
+            DestructuringItem::Named(n) if is_expr_pattern(n.pattern()) => {
                 self.convert_named(ctx.suppress_breaks(), n)
             }
             DestructuringItem::Named(n) => self.convert_named(ctx, n),
-            DestructuringItem::Pattern(Pattern::Normal(n)) => {
-                self.convert_expr(ctx.suppress_breaks(), n)
+            DestructuringItem::Pattern(p) if is_expr_pattern(p) => {
+                self.convert_pattern(ctx.suppress_breaks(), p)
             }
             DestructuringItem::Pattern(p) => self.convert_pattern(ctx, p),
         }
